@@ -117,7 +117,7 @@ impl<'lib> ProtoExporter<'lib> {
 //@   sub R6 /cell\s*\.insts\s*\.iter\(\)\s*\.map\(\|c\| self\.export_instance\(c\)\)\s*\.collect::<Result<Vec<_>, _>>\(\)\?/ => self.vp_export_instances(&cell.insts)?
 //@   sub R6 /cell\s*\.annotations\s*\.iter\(\)\s*\.map\(\|x\| self\.export_annotation\(x\)\)\s*\.collect::<Result<Vec<_>, _>>\(\)\?/ => self.vp_export_annotations(&cell.annotations)?
 //@   sub R6 /for elem in &cell\.elems \{/ => for elem in cell.elems.iter() {
-//@   sub R5 /let selflayers = self\.lib\.layers\.read\(\)\?;[\s\S]*?\.clone\(\);/ => let (number, purpose) = self.vp_layer_nums(elem)?;
+//@   sub R5 @cb96dffa /let selflayers = self\.lib\.layers\.read\(\)\?;[\s\S]*?\.clone\(\);/ => let (number, purpose) = self.vp_layer_nums(elem)?;
 //@   sub R6 /layers\.get_mut\(&\(number, purpose\)\)\.unwrap\(\)\.push\(elem\);/ => vp_group_push(&mut layers, (number, purpose), elem);
 //@   sub R6 /for layernums in layerorder \{/ => for vp_ln in layerorder.iter() { let layernums = *vp_ln;
 //@   sub R6 /for elem in elems \{/ => for elem in elems.iter() {
